@@ -77,6 +77,53 @@ def isGlue' : Expr → Bool
 
 def isGlue (e : Expr) : Bool := isChain e || isGlue' e
 
+mutual
+  /-- no assignment expression anywhere inside (the test of a `while` ends up in a lambda in the iterable of a
+      comprehension, where CPython refuses one: KF-D16) -/
+  def noWalrus : Expr → Bool
+    | .namedExpr _ _ => false
+    | .name _ | .const _ => true
+    | .joinedStr vs => noWalrusL vs
+    | .formattedValue v _ s => noWalrus v && noWalrusO s
+    | .list es | .tuple es | .set es => noWalrusL es
+    | .dict items => noWalrusD items
+    | .starred v => noWalrus v
+    | .attribute v _ => noWalrus v
+    | .subscript v s => noWalrus v && noWalrus s
+    | .slice a b c => noWalrusO a && noWalrusO b && noWalrusO c
+    | .call f as ks => noWalrus f && noWalrusL as && noWalrusK ks
+    | .binOp a _ b => noWalrus a && noWalrus b
+    | .boolOp _ vs => noWalrusL vs
+    | .unaryOp _ v => noWalrus v
+    | .compare l _ cs => noWalrus l && noWalrusL cs
+    | .ifExp t b e => noWalrus t && noWalrus b && noWalrus e
+    | .lambda (.mk _ _ _ _ kd _ ds) b => noWalrus b && noWalrusL ds && noWalrusOL kd
+    | .listComp e gs | .setComp e gs | .generatorExp e gs => noWalrus e && noWalrusC gs
+    | .dictComp k v gs => noWalrus k && noWalrus v && noWalrusC gs
+    | .yield_ v => noWalrusO v
+    | .yieldFrom v => noWalrus v
+    | .await v => noWalrus v
+  def noWalrusL : List Expr → Bool
+    | [] => true
+    | e :: es => noWalrus e && noWalrusL es
+  def noWalrusO : Option Expr → Bool
+    | none => true
+    | some e => noWalrus e
+  def noWalrusOL : List (Option Expr) → Bool
+    | [] => true
+    | none :: es => noWalrusOL es
+    | some e :: es => noWalrus e && noWalrusOL es
+  def noWalrusD : List DictItem → Bool
+    | [] => true
+    | .mk k v :: its => noWalrusO k && noWalrus v && noWalrusD its
+  def noWalrusK : List Keyword → Bool
+    | [] => true
+    | .mk _ v :: ks => noWalrus v && noWalrusK ks
+  def noWalrusC : List Comp → Bool
+    | [] => true
+    | .mk t i ifs _ :: gs => noWalrus t && noWalrus i && noWalrusL ifs && noWalrusC gs
+end
+
 def isSliceE : Expr → Bool
   | .slice .. => true
   | _ => false
@@ -131,6 +178,9 @@ mutual
     | forComp (elt : Expr) (x : String) (itr : Expr) {u u1 u2 u3 : U} {t t1 t3 : T V} {iv it : V} {vs : List V} :
         isTemp x → Ev W itr u t iv u1 t1 → W.getiter iv u1 = some (it, u2) → Iter W elt x it u2 t1 vs u3 t3 →
         Ev W (.listComp elt [.mk (.name x) itr [] false]) u t (W.listOf vs) u3 t3
+    | whileComp (elt test : Expr) {u u' : U} {t t' : T V} {vs : List V} :
+        WIter W test elt u t vs u' t' →
+        Ev W (.listComp elt [.mk (.name whileCounter) (takewhileIter test) [] false]) u t (W.listOf vs) u' t'
     | runner (u : U) (t : T V) : Ev W chainRunner u t W.runner u t
     | chain (f a : Expr) {u u1 u2 : U} {t t1 t2 : T V} {v : V} :
         isChain (.call f [a] []) = true → Ev W f u t W.runner u1 t1 → Ev W a u1 t1 v u2 t2 →
@@ -147,6 +197,16 @@ mutual
     | step (elt : Expr) (x : String) (it : V) {u u1 u2 u3 : U} {t t2 t3 : T V} {v ev : V} {vs : List V} :
         W.next it u = some (some v, u1) → Ev W elt u1 ((x, v) :: t) ev u2 t2 → Iter W elt x it u2 t2 vs u3 t3 →
         Iter W elt x it u t (ev :: vs) u3 t3
+  /-- `[elt for __ol_cnt in itertools.takewhile(lambda __ol_cnt: test, itertools.count())]`: the test (a
+      walrus-free expression, evaluated as the body of a lambda at module level: the same names), its truth
+      value, the element, again - by the documented contracts of `takewhile` and `count`, with `itertools`
+      naming the module (the helper import in front of the converted program binds it) -/
+  inductive WIter (W : World U V) : Expr → Expr → U → T V → List V → U → T V → Prop
+    | done (test elt : Expr) {u u1 u2 : U} {t t1 : T V} {tv : V} :
+        Ev W test u t tv u1 t1 → W.truthy tv u1 = some (false, u2) → WIter W test elt u t [] u2 t1
+    | step (test elt : Expr) {u u1 u2 u3 u4 : U} {t t1 t2 t3 : T V} {tv ev : V} {vs : List V} :
+        Ev W test u t tv u1 t1 → W.truthy tv u1 = some (true, u2) → Ev W elt u2 t1 ev u3 t2 → WIter W test elt u3 t2 vs u4 t3 →
+        WIter W test elt u t (ev :: vs) u4 t3
 end
 
 /-- an expression that never names a helper variable where the rules would look at it -/
@@ -255,9 +315,20 @@ mutual
         Ev W iter u [] iv u1 [] → W.getiter iv u1 = some (it, u2) → ForIter W target body it u2 u3 → ExecB W orelse u3 u4 →
         ExecS W (.for_ target iter body orelse) u u4
 
+    | while_ (test : Expr) (body orelse : List Stmt) {u u1 u2 : U} :
+        WhileIter W test body u u1 → ExecB W orelse u1 u2 → ExecS W (.while_ test body orelse) u u2
+
   inductive ExecB (W : World U V) : List Stmt → U → U → Prop
     | nil (u : U) : ExecB W [] u u
     | cons {s : Stmt} {ss : List Stmt} {u u1 u2 : U} : ExecS W s u u1 → ExecB W ss u1 u2 → ExecB W (s :: ss) u u2
+
+  /-- the iterations of a `while` statement without break / continue (8.2): the test, its truth value, the body -/
+  inductive WhileIter (W : World U V) : Expr → List Stmt → U → U → Prop
+    | done (test : Expr) (body : List Stmt) {u u1 u2 : U} {tv : V} :
+        Ev W test u [] tv u1 [] → W.truthy tv u1 = some (false, u2) → WhileIter W test body u u2
+    | step (test : Expr) (body : List Stmt) {u u1 u2 u3 u4 : U} {tv : V} :
+        Ev W test u [] tv u1 [] → W.truthy tv u1 = some (true, u2) → ExecB W body u2 u3 → WhileIter W test body u3 u4 →
+        WhileIter W test body u u4
 
   /-- the iterations of a `for` statement without break / continue (8.3): `next`, assign the target, run the body -/
   inductive ForIter (W : World U V) : Expr → List Stmt → V → U → U → Prop
@@ -285,17 +356,20 @@ inductive SimpleT : Expr → Prop
 
 /-- the statements of the fragment: expression statements, `pass`, `global`, assignments with any
     number of name / attribute / subscript targets, augmented assignments on the same targets,
-    `if` / `elif` / `else` and `for` (with `else`, without break / continue) over such statements at any nesting;
-    all their expressions free of helper names -/
-inductive SimpleS : Stmt → Prop
-  | expr (e : Expr) : Clean e → SimpleS (.expr e)
-  | pass : SimpleS .pass_
-  | global_ (ns : List String) : SimpleS (.global_ ns)
-  | assign (ts : List Expr) (value : Expr) : ts ≠ [] → (∀ t ∈ ts, SimpleT t) → Clean value → SimpleS (.assign ts value)
-  | aug (t : Expr) (op : BinOpK) (value : Expr) : SimpleT t → Clean value → SimpleS (.augAssign t op value)
-  | if_ (test : Expr) (body orelse : List Stmt) : Clean test → (∀ s ∈ body, SimpleS s) → (∀ s ∈ orelse, SimpleS s) →
-      SimpleS (.if_ test body orelse)
-  | for_ (target iter : Expr) (body orelse : List Stmt) : SimpleT target → Clean iter → (∀ s ∈ body, SimpleS s) →
-      (∀ s ∈ orelse, SimpleS s) → SimpleS (.for_ target iter body orelse)
+    `if` / `elif` / `else`, `for` and - with `w = true` - `while` (with `else`, without break / continue) over such
+    statements at any nesting; all their expressions free of helper names -/
+inductive SimpleS (w : Bool) : Stmt → Prop
+  | expr (e : Expr) : Clean e → SimpleS w (.expr e)
+  | pass : SimpleS w .pass_
+  | global_ (ns : List String) : SimpleS w (.global_ ns)
+  | assign (ts : List Expr) (value : Expr) : ts ≠ [] → (∀ t ∈ ts, SimpleT t) → Clean value → SimpleS w (.assign ts value)
+  | aug (t : Expr) (op : BinOpK) (value : Expr) : SimpleT t → Clean value → SimpleS w (.augAssign t op value)
+  | if_ (test : Expr) (body orelse : List Stmt) : Clean test → (∀ s ∈ body, SimpleS w s) → (∀ s ∈ orelse, SimpleS w s) →
+      SimpleS w (.if_ test body orelse)
+  | for_ (target iter : Expr) (body orelse : List Stmt) : SimpleT target → Clean iter → (∀ s ∈ body, SimpleS w s) →
+      (∀ s ∈ orelse, SimpleS w s) → SimpleS w (.for_ target iter body orelse)
+  /-- only in the fragment with `w = true`: lowering a `while` asks for the helper import of `itertools` -/
+  | while_ (test : Expr) (body orelse : List Stmt) : w = true → Clean test → noWalrus test = true → (∀ s ∈ body, SimpleS w s) →
+      (∀ s ∈ orelse, SimpleS w s) → SimpleS w (.while_ test body orelse)
 
 end OlVerif.Sem
